@@ -24,6 +24,19 @@ def handle : List String → Option String
   | ["prelude.join", p, n] => do let p ← txt p; let n ← txt n; pure (out (Rs.join p n))
   | ["prelude.with_file_name", p, n] => do let p ← txt p; let n ← txt n; pure (out (Rs.with_file_name p n))
   | ["prelude.working_file_path", p] => (txt p).map fun p => out (SyModel.Generated.TempFile.working_file_path p)
+  | ["prelude.path_starts_with", p, b] => do let p ← txt p; let b ← txt b; pure (toString (Rs.path_starts_with p b))
+  | ["prelude.str_starts_with", p, b] => do let p ← txt p; let b ← txt b; pure (toString (Rs.str_starts_with p b))
+  | ["prelude.ends_with_slash", p] => (txt p).map fun p => toString (Rs.ends_with p '/')
+  | ["prelude.sort_by_key_odd", l] => do
+      let xs ← (if l == "-" then some [] else (l.splitOn ",").mapM (·.toNat?))
+      pure (",".intercalate ((Rs.sort_by_key_bool xs (fun x => x % 2 == 1)).map toString))
+  | ["prelude.partition_odd", l] => do
+      let xs ← (if l == "-" then some [] else (l.splitOn ",").mapM (·.toNat?))
+      let (a, b) := Rs.partition xs (fun x => x % 2 == 1)
+      pure (",".intercalate (a.map toString) ++ "|" ++ ",".intercalate (b.map toString))
+  | ["prelude.div_ceil", a, b] => do let a ← a.toNat?; let b ← b.toNat?; pure (toString (Rs.div_ceil a b))
+  | ["prelude.abs_diff", a, b] => do let a ← a.toNat?; let b ← b.toNat?; pure (toString (Rs.abs_diff a b))
+  | ["prelude.saturating_sub", a, b] => do let a ← a.toNat?; let b ← b.toNat?; pure (toString (Rs.saturating_sub a b))
   | ["prelude.strip_prefix", p, b] => do
       let p ← txt p; let b ← txt b
       pure (match Rs.strip_prefix p b with | .ok r => "ok:" ++ out r | .error _ => "err")
